@@ -3,7 +3,7 @@ From SqlModel Require Import Base PyStr Re Lexer Node Passes TotalDefs TotalFact
 From SqlModel.Filters Require Import OptDefs OptFacts StripComments StripCommentsFacts.
 From SqlModel.Gen Require Import OptTab.
 From SqlModel.Inst Require Import Cur TotalParse.
-From SqlModel.Props Require Export C07_opt.
+From SqlModel.Props Require Export C07_opt C07_out.
 
 (* parse() and the statement splitter never fail, whatever the text *)
 Theorem C07_parse_total : forall t, exists stmts, cur_parse t = Ok stmts.
